@@ -11,13 +11,13 @@
 #include <map>
 extern int64_t verif_clock_ns;
 
-static vec3 g_axis; static bool g_use_axis = false;
+static vec3 g_axis; static bool g_use_axis = false; static bool g_all_ready = true;
 
 class axis_cell : public epithelial_cell {
 public:
     using epithelial_cell::epithelial_cell;
     vec3 get_cell_division_axis() const noexcept override { return g_use_axis ? g_axis : get_cell_longest_axis(); }
-    bool is_ready_to_divide() const noexcept override { return true; }
+    bool is_ready_to_divide() const noexcept override { return g_all_ready || epithelial_cell::is_ready_to_divide(); }
 };
 
 static std::string clean(std::string w){ for (char& ch : w) if (ch==' '||ch=='|'||ch=='\n') ch='_'; return w.substr(0, 120); }
@@ -92,7 +92,7 @@ int main(){
             }
             tissue_case t = read_tissue(in);
             expect(in, "DIV"); long seed; int mode; in >> seed >> mode; double ax = rd(in), ay = rd(in), az = rd(in);
-            g_use_axis = mode == 1; g_axis = vec3(ax, ay, az);
+            g_use_axis = (mode & 1) != 0; g_all_ready = (mode & 2) == 0; g_axis = vec3(ax, ay, az);
             verif_clock_ns = 1700000000000000000LL + seed * 1000003LL;
             std::vector<cell_ptr> cells;
             for (size_t i = 0; i < t.meshes.size(); i++){
